@@ -311,6 +311,13 @@ def check_per_cluster(run, rng):
                 run.fail("from-particles-raises", f"{type(e).__name__}: {e} for coordinates scaled by {scal.tolist()}", K=K, d=d, data_seed=t)
                 break
             for k in range(K):
+                Lk = np.asarray(ms2.chol_covariances[k])
+                sdk = np.sqrt(np.diag(ms2.covariances[k]))
+                if not np.allclose(Lk, np.tril(Lk)) or not np.allclose((Lk @ Lk.T) / np.outer(sdk, sdk), ms2.covariances[k] / np.outer(sdk, sdk), atol=1e-8):
+                    run.fail("cholesky-factor-not-of-the-scale", f"mode {k}: chol_covariances is not the lower factor L with L L^T = covariances "
+                             f"(L L^T / (sd sd^T) = {((Lk @ Lk.T) / np.outer(sdk, sdk)).tolist()}, correlation matrix {(ms2.covariances[k] / np.outer(sdk, sdk)).tolist()}) "
+                             f"for coordinates scaled by {scal.tolist()}", K=K, d=d, data_seed=t)
+                    break
                 sd = np.sqrt(np.diag(ms2.covariances[k]))
                 Pm = (ms2.inv_covariances[k] @ ms2.covariances[k]) * sd[:, None] / sd[None, :]      # in the data's own units
                 if not np.allclose(Pm, np.eye(d), atol=1e-6):
@@ -361,11 +368,31 @@ def check_fallback_end_to_end(run):
         return orig(*a, **k)
     located_state = []
     mut.parallel_mcmc = pm
+    from tempest.modes import ModeStatistics as _MS
+    orig_fp, orig_fg = _MS.from_particles.__func__, _MS.from_global.__func__
+
+    def rows_are_pool_rows(uu):
+        if not located_state:
+            return
+        pool_rows = {r.tobytes() for r in np.concatenate(located_state[0].state._history["u"])}
+        arr = np.ascontiguousarray(np.asarray(uu, dtype=float))
+        n_bad = sum(1 for r in arr if r.tobytes() not in pool_rows)
+        if n_bad:
+            located.append((-1, f"{n_bad} of {len(arr)} rows handed to the Student-t fit are not rows of the stored particle pool", arr[:2].tolist()))
+
+    def fp(cls, uu, *a, **k):
+        rows_are_pool_rows(uu)
+        return orig_fp(cls, uu, *a, **k)
+
+    def fg(cls, uu, *a, **k):
+        rows_are_pool_rows(uu)
+        return orig_fg(cls, uu, *a, **k)
+    _MS.from_particles, _MS.from_global = classmethod(fp), classmethod(fg)
     try:
         for cfg in (dict(clustering=False), dict(clustering=True, cluster_every=1), dict(clustering=True, cluster_every=2)):
             del seen[:]
             del located[:]
-            s = Sampler(lambda u: 10 * u + 5, lambda x: -0.5 * float(np.sum((x - 10.0) ** 2)), n_dim=2, n_particles=16, random_state=5, **cfg)
+            s = Sampler(lambda u: 10 * u + 5, lambda x: -0.5 * float(np.sum((x - 8.0) ** 2)) / 0.25, n_dim=2, n_particles=16, random_state=5, **cfg)
             located_state[:] = [s]
             s.run(n_total=32, progress=False)
             run.case(key=("fallback-e2e", str(cfg)), nontrivial=True)
@@ -380,6 +407,7 @@ def check_fallback_end_to_end(run):
                          f"configured fallback is {cfgmod.DOF_FALLBACK}", cfg=cfg)
     finally:
         mut.parallel_mcmc = orig
+        _MS.from_particles, _MS.from_global = classmethod(orig_fp), classmethod(orig_fg)
     # a Trainer built directly with its own fallback, driven through a refit and a reuse iteration
     from tempest.state_manager import StateManager
     from tempest.steps.train import Trainer
